@@ -36,7 +36,8 @@ func (ex *Exec) axioms(cone []*Term) []*Term {
 				out = append(out, Eq(UF("trim", SInt, t), t))
 			}
 		case "uf:strlen":
-			out = append(out, BVCmp("bvsle", BVC(0, 64), t), Eq(Eq(t, BVC(0, 64)), Eq(t.args[0], IntC(0))))
+			// bound: atom-mode strings are at most 1 MiB long (stated bound; the log format itself caps lines at 10 MiB)
+			out = append(out, BVCmp("bvsle", BVC(0, 64), t), BVCmp("bvsle", t, BVC(1<<20, 64)), Eq(Eq(t, BVC(0, 64)), Eq(t.args[0], IntC(0))))
 		case "uf:timefmt":
 			out = append(out, ILt(IntC(0), t))
 			fmts = append(fmts, t)
